@@ -239,12 +239,62 @@ Fixpoint rc_prefix (p d : list N) : bool :=
   | _ :: _, [] => false
   end.
 
-(* offsets (base + position) of the occurrences of p in d, ascending *)
-Fixpoint rc_occ (p d : list N) (pos : N) : list N :=
+(* String modifiers are encoded in the pattern itself as leading elements that cannot be bytes:
+   256 = fullword, 257 = nocase, 258 = wide (each byte followed by 0); the rest is the text. *)
+Record rc_mods := mk_rc_mods { rm_fullword : bool; rm_nocase : bool; rm_wide : bool }.
+
+Fixpoint rc_split_mods (p : list N) (m : rc_mods) : rc_mods * list N :=
+  match p with
+  | x :: r =>
+      if N.eqb x 256 then rc_split_mods r (mk_rc_mods true (rm_nocase m) (rm_wide m))
+      else if N.eqb x 257 then rc_split_mods r (mk_rc_mods (rm_fullword m) true (rm_wide m))
+      else if N.eqb x 258 then rc_split_mods r (mk_rc_mods (rm_fullword m) (rm_nocase m) true)
+      else (m, p)
+  | [] => (m, p)
+  end.
+
+Definition rc_lower (x : N) : N := if (if N.leb 65 x then N.leb x 90 else false) then x + 32 else x.
+Definition rc_alnum (x : N) : bool :=
+  if (if N.leb 48 x then N.leb x 57 else false) then true
+  else if (if N.leb 65 x then N.leb x 90 else false) then true
+  else (if N.leb 97 x then N.leb x 122 else false).
+
+Fixpoint rc_widen (p : list N) : list N := match p with [] => [] | x :: r => x :: 0%N :: rc_widen r end.
+
+Fixpoint rc_prefix_m (nocase : bool) (p d : list N) : bool :=
+  match p, d with
+  | [], _ => true
+  | x :: p', y :: d' =>
+      if (if nocase then N.eqb (rc_lower x) (rc_lower y) else N.eqb x y) then rc_prefix_m nocase p' d' else false
+  | _ :: _, [] => false
+  end.
+
+Definition rc_is (o : option N) (f : N -> bool) : bool := match o with Some x => f x | None => false end.
+
+(* scan.c _yr_scan_match_callback, "if (callback_args->full_word)": a candidate at [d] (the data from the match
+   on; [prev1], [prev2] the one and two bytes before it, None = before the start of the block) of length [len] is
+   dropped when the neighbouring byte INSIDE the block is alphanumeric (wide: alphanumeric followed by 0);
+   nothing outside the block is looked at *)
+Definition rc_fullword_ok (wide : bool) (prev2 prev1 : option N) (d : list N) (len : nat) : bool :=
+  if wide
+  then negb (if rc_is prev1 (N.eqb 0) then rc_is prev2 rc_alnum else false) &&
+       negb (if rc_is (nth_error d (S len)) (N.eqb 0) then rc_is (nth_error d len) rc_alnum else false)
+  else negb (rc_is prev1 rc_alnum) && negb (rc_is (nth_error d len) rc_alnum).
+
+Fixpoint rc_occ_go (m : rc_mods) (pb : list N) (prev2 prev1 : option N) (d : list N) (pos : N) : list N :=
   match d with
   | [] => []
-  | _ :: d' => (if (match p with [] => false | _ => rc_prefix p d end) then [pos] else []) ++ rc_occ p d' (N.succ pos)
+  | y :: d' =>
+      (if (match pb with [] => false | _ => rc_prefix_m (rm_nocase m) pb d end)
+       then (if (if rm_fullword m then rc_fullword_ok (rm_wide m) prev2 prev1 d (length pb) else true) then [pos] else [])
+       else []) ++ rc_occ_go m pb prev1 (Some y) d' (N.succ pos)
   end.
+
+(* offsets (base + position) of the occurrences of p in d, ascending *)
+Definition rc_occ (p d : list N) (pos : N) : list N :=
+  let sp := rc_split_mods p (mk_rc_mods false false false) in
+  let pb := if rm_wide (fst sp) then rc_widen (snd sp) else snd sp in
+  rc_occ_go (fst sp) pb None None d pos.
 
 (* _yr_scan_add_match_to_list: kept sorted by offset, an offset already present is not added again *)
 Fixpoint rc_insert (x : N) (l : list N) : list N :=
